@@ -1,5 +1,6 @@
 import Cpl.Spec.Ring
 import Cpl.Lemmas.Evolve1D
+import Cpl.Lemmas.Dyn2D
 
 /-!
 # C06 — callable timesteps gate every step; until_fixed_point halts at the first fixed point (1D part)
@@ -176,5 +177,200 @@ theorem untilFixedPoint_spec [DecidableEq α] [Inhabited α] (fuel : Nat) (hist 
 example : untilFixedPoint [[1, 0], [1, 0]] 2 = false := by decide
 example : untilFixedPoint [[1, 0], [0, 1]] 2 = true := by decide
 example : untilFixedPoint [[1, 0]] 1 = true := by decide
+
+end Cpl.C06
+
+/-!
+# C06 — 2D: `evolve2d` with a callable `timesteps`, `until_fixed_point` on grids
+
+Same statements as above for `evolve2dDynamic` / `evolve2dFixed`. The neighbourhood type is arbitrary
+(`.unknown` included: both functions then fail with `ValueError` as soon as a step is taken, before
+the memoize option is looked at; a bad memoize option gives `Exception`).
+-/
+
+namespace Cpl.C06
+open Cpl Cpl.Spec Cpl.Dyn2D
+
+variable {σ α : Type}
+
+/-- The grids of this call after `j` steps in the given mode: starting grid first. -/
+def callGrids [DecidableEq α] [Inhabited α] (mode : Mode) (rule : Rule2 σ α) (r : Nat) (nb : NbType)
+    (init : Grid α) (s : σ) (j : Nat) : List (Grid α) :=
+  init :: (fixedLoop2 mode rule r (decide (nb = .vonNeumann)) j 1 init Caches2.empty s).1
+
+/-- **The dynamic 2D evolution equals the fixed-count evolution of the same length.** If the predicate,
+    consulted with (grids of this call so far, `t` = their number), says yes for `t = 1..k` and no at
+    `t = k+1`, then (given enough fuel) the result is exactly `evolve2d` with `timesteps = k+1` — for
+    every neighbourhood type and every memoize mode, error behaviour included (unknown neighbourhood:
+    `ValueError`; otherwise bad memoize option: `Exception`; both only if a step is taken). -/
+theorem dyn2_eq_fixed [DecidableEq α] [Inhabited α] (fuel k : Nat) (hist : List (Grid α)) (init : Grid α)
+    (hlast : hist.getLast? = some init) (pred : List (Grid α) → Nat → Bool) (rule : Rule2 σ α) (r : Nat)
+    (nb : NbType) (mode : Mode) (s : σ)
+    (hyes : ∀ i, i < k → pred (callGrids mode rule r nb init s i) (i + 1) = true)
+    (hno : pred (callGrids mode rule r nb init s k) (k + 1) = false)
+    (hfuel : k < fuel) :
+    evolve2dDynamic fuel hist pred rule r nb mode s
+      = some (evolve2dFixed hist (k + 1) rule r nb mode s) := by
+  unfold evolve2dDynamic evolve2dFixed
+  rw [hlast]
+  simp only
+  by_cases hb : 1 ≤ k ∧ (nb = .unknown ∨ mode = .bad)
+  · obtain ⟨hk, hm⟩ := hb
+    obtain ⟨f, rfl⟩ : ∃ f, fuel = f + 1 := ⟨fuel - 1, by omega⟩
+    have h0 : pred [init] 1 = true := by simpa [callGrids, fixedLoop2] using hyes 0 (by omega)
+    have hk2 : k + 1 ≥ 2 := by omega
+    by_cases hn : nb = .unknown
+    · simp [dynLoop2, h0, hn, hk2]
+    · have hm' : mode = .bad := by
+        rcases hm with h | h
+        · exact absurd h hn
+        · exact h
+      simp [dynLoop2, h0, hn, hm', hk2]
+  · have hm : k = 0 ∨ (nb ≠ .unknown ∧ mode ≠ .bad) := by
+      by_cases h : k = 0
+      · exact Or.inl h
+      · refine Or.inr ⟨fun hn => hb ⟨by omega, Or.inl hn⟩, fun hm => hb ⟨by omega, Or.inr hm⟩⟩
+    have hyes' : ∀ i, i < k →
+        pred ([init] ++ (fixedLoop2 mode rule r (decide (nb = .vonNeumann)) i 1 init Caches2.empty s).1)
+          (1 + i) = true := by
+      intro i hi
+      have := hyes i hi
+      simpa [callGrids, Nat.add_comm 1 i] using this
+    have hno' : pred ([init] ++ (fixedLoop2 mode rule r (decide (nb = .vonNeumann)) k 1 init
+        Caches2.empty s).1) (1 + k) = false := by
+      simpa [callGrids, Nat.add_comm 1 k] using hno
+    rw [dynLoop2_eq_fixedLoop2 mode rule r nb pred k fuel 1 [init] init Caches2.empty s hm hfuel
+      hyes' hno']
+    simp only [Nat.add_sub_cancel]
+    have hc1 : ¬ (k + 1 ≥ 2 ∧ nb = .unknown) := fun h => hb ⟨by omega, Or.inl h.2⟩
+    have hc2 : ¬ (k + 1 ≥ 2 ∧ mode = .bad) := fun h => hb ⟨by omega, Or.inr h.2⟩
+    rw [if_neg (by omega), if_neg hc1, if_neg hc2]
+    simp
+
+/-- **Declining at once returns the given history unchanged** (and consults the rule not at all),
+    whatever the neighbourhood type and the memoize option. -/
+theorem dyn2_zero_step [DecidableEq α] [Inhabited α] (fuel : Nat) (hist : List (Grid α)) (init : Grid α)
+    (hlast : hist.getLast? = some init) (pred : List (Grid α) → Nat → Bool) (rule : Rule2 σ α) (r : Nat)
+    (nb : NbType) (mode : Mode) (s : σ) (hno : pred [init] 1 = false) :
+    evolve2dDynamic (fuel + 1) hist pred rule r nb mode s = some (.ok (hist, s)) := by
+  unfold evolve2dDynamic
+  rw [hlast]
+  simp [dynLoop2, hno]
+
+/-- A step is performed *only* when the predicate says yes: if the run ends normally with `k` new
+    grids, the predicate was true at `t = 1..k` on the grids so far and false at `t = k+1`. Holds for
+    every neighbourhood type; if at least one step was taken, the neighbourhood type was a known one
+    and the memoize option a supported one. -/
+theorem dyn2_result_gated [DecidableEq α] [Inhabited α] (fuel : Nat) (hist : List (Grid α)) (init : Grid α)
+    (hlast : hist.getLast? = some init) (pred : List (Grid α) → Nat → Bool) (rule : Rule2 σ α) (r : Nat)
+    (nb : NbType) (mode : Mode) (s s' : σ) (out : List (Grid α))
+    (h : evolve2dDynamic fuel hist pred rule r nb mode s = some (.ok (out, s'))) :
+    ∃ k, out.length = hist.length + k ∧
+      (∀ i, i < k → pred (callGrids mode rule r nb init s i) (i + 1) = true) ∧
+      pred (callGrids mode rule r nb init s k) (k + 1) = false ∧
+      out = hist ++ (callGrids mode rule r nb init s k).drop 1 ∧
+      (1 ≤ k → nb ≠ .unknown ∧ mode ≠ .bad) := by
+  unfold evolve2dDynamic at h
+  rw [hlast] at h
+  simp only at h
+  cases hd : dynLoop2 mode rule r nb pred fuel 1 [init] init Caches2.empty s with
+  | none => simp [hd] at h
+  | some res =>
+    cases res with
+    | error e => simp [hd] at h
+    | ok p =>
+      obtain ⟨acc, s''⟩ := p
+      simp only [hd, Option.some.injEq, Except.ok.injEq, Prod.mk.injEq] at h
+      obtain ⟨m, hyes, hno, hres, _, hknown⟩ := dynLoop2_ok_inv mode rule r nb pred fuel 1 [init] init
+        Caches2.empty s acc s'' hd
+      refine ⟨m, ?_, ?_, ?_, ?_, hknown⟩
+      · rw [← h.1, hres]
+        simp [fixedLoop2_length]
+      · intro i hi
+        have := hyes i hi
+        simpa [callGrids, Nat.add_comm 1 i] using this
+      · simpa [callGrids, Nat.add_comm 1 m] using hno
+      · rw [← h.1, hres]
+        simp [callGrids]
+
+/-- **until_fixed_point stops exactly at the first step that leaves the grid unchanged**:
+    if grid `k` (k ≥ 1) of this call is the first one equal to its predecessor, the run is the
+    fixed-count evolution with `k` steps. -/
+theorem untilFixedPoint2_stops_at_first [DecidableEq α] [Inhabited α] (fuel k : Nat) (hist : List (Grid α))
+    (init : Grid α) (hlast : hist.getLast? = some init) (rule : Rule2 σ α) (r : Nat) (nb : NbType)
+    (mode : Mode) (s : σ) (hk : 1 ≤ k)
+    (hfirst : ∀ i, 1 ≤ i → i < k →
+      (callGrids mode rule r nb init s k)[i]? ≠ (callGrids mode rule r nb init s k)[i - 1]?)
+    (hfix : (callGrids mode rule r nb init s k)[k]? = (callGrids mode rule r nb init s k)[k - 1]?)
+    (hfuel : k < fuel) :
+    evolve2dDynamic fuel hist untilFixedPoint2 rule r nb mode s
+      = some (evolve2dFixed hist (k + 1) rule r nb mode s) := by
+  have hlen : (callGrids mode rule r nb init s k).length = k + 1 := by
+    simp [callGrids, fixedLoop2_length]
+  have hpre : ∀ i, i ≤ k →
+      callGrids mode rule r nb init s i = (callGrids mode rule r nb init s k).take (i + 1) := by
+    intro i hi
+    simp only [callGrids, List.take_succ_cons]
+    rw [fixedLoop2_take mode rule r _ i k 1 init Caches2.empty s hi]
+  apply dyn2_eq_fixed fuel k hist init hlast untilFixedPoint2 rule r nb mode s _ _ hfuel
+  · intro i hi
+    rw [hpre i (by omega), untilFixedPoint2_take _ _ _ (by omega)]
+    by_cases h1 : 1 ≤ i
+    · have := hfirst i h1 hi
+      simp only [h1, if_true, Bool.not_eq_true', decide_eq_false_iff_not]
+      exact fun h => this h.symm
+    · simp [h1]
+  · rw [hpre k (by omega), untilFixedPoint2_take _ _ _ (by omega)]
+    simp only [hk, if_true, Bool.not_eq_false', decide_eq_true_eq]
+    exact hfix.symm
+
+/-- Conversely, whenever the run with `until_fixed_point` ends normally, at least one step was taken
+    (so the neighbourhood type and the memoize option were accepted), the last two grids of this call
+    are equal and no earlier pair of consecutive grids is. -/
+theorem untilFixedPoint2_spec [DecidableEq α] [Inhabited α] (fuel : Nat) (hist : List (Grid α))
+    (init : Grid α) (hlast : hist.getLast? = some init) (rule : Rule2 σ α) (r : Nat) (nb : NbType)
+    (mode : Mode) (s s' : σ) (out : List (Grid α))
+    (h : evolve2dDynamic fuel hist untilFixedPoint2 rule r nb mode s = some (.ok (out, s'))) :
+    ∃ new, out = hist ++ new ∧ 1 ≤ new.length ∧
+      (init :: new)[new.length]? = (init :: new)[new.length - 1]? ∧
+      (∀ i, 1 ≤ i → i < new.length → (init :: new)[i]? ≠ (init :: new)[i - 1]?) ∧
+      nb ≠ .unknown ∧ mode ≠ .bad := by
+  obtain ⟨k, hlen, hyes, hno, hout, hknown⟩ :=
+    dyn2_result_gated fuel hist init hlast untilFixedPoint2 rule r nb mode s s' out h
+  have hclen : (callGrids mode rule r nb init s k).length = k + 1 := by
+    simp [callGrids, fixedLoop2_length]
+  have hpre : ∀ i, i ≤ k →
+      callGrids mode rule r nb init s i = (callGrids mode rule r nb init s k).take (i + 1) := by
+    intro i hi
+    simp only [callGrids, List.take_succ_cons]
+    rw [fixedLoop2_take mode rule r _ i k 1 init Caches2.empty s hi]
+  have hnewlen : (fixedLoop2 mode rule r (decide (nb = .vonNeumann)) k 1 init Caches2.empty s).1.length
+      = k := fixedLoop2_length mode rule r _ k 1 init Caches2.empty s
+  have hcr : init :: (fixedLoop2 mode rule r (decide (nb = .vonNeumann)) k 1 init Caches2.empty s).1
+      = callGrids mode rule r nb init s k := rfl
+  rw [hpre k (by omega), untilFixedPoint2_take _ _ _ (by omega)] at hno
+  have hk : 1 ≤ k := by
+    by_cases hk : 1 ≤ k
+    · exact hk
+    · simp [hk] at hno
+  refine ⟨(fixedLoop2 mode rule r (decide (nb = .vonNeumann)) k 1 init Caches2.empty s).1,
+    ?_, ?_, ?_, ?_, (hknown hk).1, (hknown hk).2⟩
+  · rw [hout]; simp [callGrids]
+  · omega
+  · rw [hnewlen, hcr]
+    simp only [hk, if_true, Bool.not_eq_false', decide_eq_true_eq] at hno
+    exact hno.symm
+  · intro i h1 hi
+    rw [hnewlen] at hi
+    rw [hcr]
+    have := hyes i hi
+    rw [hpre i (by omega), untilFixedPoint2_take _ _ _ (by omega)] at this
+    simp only [h1, if_true, Bool.not_eq_true', decide_eq_false_iff_not] at this
+    exact fun h => this h.symm
+
+/-! ## Non-vacuity (2D) -/
+example : untilFixedPoint2 [[[1, 0], [0, 1]], [[1, 0], [0, 1]]] 2 = false := by decide
+example : untilFixedPoint2 [[[1, 0], [0, 1]], [[0, 1], [1, 0]]] 2 = true := by decide
+example : untilFixedPoint2 [[[1, 0], [0, 1]]] 1 = true := by decide
 
 end Cpl.C06
